@@ -70,7 +70,7 @@ def _work(task):
     from vp import registry, core
     cd = registry.CONTRACTS[cid]
     t0 = time.time()
-    wd = _watchdog(float(os.environ.get('VERIF_TASK_LIMIT', '1500')))
+    wd = _watchdog(float(os.environ.get('VERIF_TASK_LIMIT', '600')))
     try:
         if mode == 'sym':
             r = core.run_symbolic(cd.fn, config, max_paths=cd.max_paths, budget_s=cd.budget_s)
